@@ -4,8 +4,8 @@ import iongen
 import binlib
 
 import c12text
-THEOREMS = ["C04_binary", "C04_binary_writer", "C04_binary_spec", "C04_binary_value", "C04_binary_S1", "C04_binary_S2", "C04_binary_S3", "C04_binary_nan", "C04_binary_int_calls_agree", "C04_binary_int64", "C04_declared_length", "C04_reachable_wf", "tw_tdecode_universe", "tw_tdecode_batches", "tx_string_reads_back", "tx_symbol_reads_back", "tx_clob_reads_back", "tx_bare_symbol", "tx_quoted_symbol", "C04text", "C04text_stream", "C04text_value", "C04text_recovered", "C04text_canonical_plain", "C04text_number_spelling", "C04text_quoted_spelling", "C04text_clob_spelling", "C04text_decimal_denotes", "C04text_float_zero"]
-EXTRA_MODULES = ["C04text"]
+THEOREMS = ["C04_binary", "C04_binary_writer", "C04_binary_spec", "C04_binary_value", "C04_binary_S1", "C04_binary_S2", "C04_binary_S3", "C04_binary_nan", "C04_binary_int_calls_agree", "C04_binary_int64", "C04_declared_length", "C04_reachable_wf", "tw_tdecode_universe", "tw_tdecode_batches", "tx_string_reads_back", "tx_symbol_reads_back", "tx_clob_reads_back", "tx_bare_symbol", "tx_quoted_symbol", "C04text", "C04text_stream", "C04text_value", "C04text_recovered", "C04text_canonical_plain", "C04text_number_spelling", "C04text_quoted_spelling", "C04text_clob_spelling", "C04text_decimal_denotes", "C04text_float_zero", "C04text_value_pretty", "C04text_stream_pretty", "C04text_pretty", "C04text_recovered_pretty"]
+EXTRA_MODULES = ["C04text", "C04text2"]
 LEVEL = "other"
 EXPLANATION = ("K3: the binary Writer model (Bin/BinWriter.v) against the real Writer on value forests; oracle: the "
                "real Writer's bytes are decoded by the extracted specification decoder SpecBin.sdecode (written from "
